@@ -4,7 +4,10 @@
 //!
 //! Spec-level oracle (no model involved): every result is compared with the defining formula evaluated
 //! directly on the source contents held by the harness; a disagreement or a panic on a request whose
-//! formula is defined prints a `V` line whose key names the class of the configuration.
+//! formula is defined prints a `V` line (key `<family>-plain-<panic|wrong>`).  Requests that touch an index whose
+//! window start runs ahead of the index by more than an empty window (DeltaSub: start > h+1, DeltaChange:
+//! start > h) or a non-governing FromN source shorter than len() are outside the property's hypotheses: they are
+//! tagged (`M class:…`) and only compared with the model.
 //!
 //! I line:  <ovf> <kind> <ty> <stor> <counts> S=<csv> [S=<csv> [S=<csv>]] M=<csv> <op>...
 //!   ovf    1 = integer overflow checks are on in this build (debug), 0 = wrapping (release)
@@ -414,7 +417,8 @@ impl<'a> Spec<'a> {
             Kind::From2 | Kind::From3 => {
                 (0..self.c.kind.nsrc()).filter(|k| self.c.counts[*k]).map(|k| self.srclen(k)).min().unwrap_or(usize::MAX)
             }
-            Kind::DSub | Kind::DChg => self.srclen(0),
+            // delta/any_vec.rs: len() is bounded by the window-start mapping as well
+            Kind::DSub | Kind::DChg => self.srclen(0).min(self.c.map.len()),
             Kind::Agg => self.c.map.len(),
         }
     }
@@ -471,8 +475,7 @@ impl<'a> Spec<'a> {
         if h >= self.dom() {
             // the vector reports a length (`len()`) that covers h, but the formula has no inputs there
             return match self.c.kind {
-                Kind::DSub | Kind::DChg => "mapping-shorter-than-source",
-                Kind::Agg => "",
+                Kind::DSub | Kind::DChg | Kind::Agg => "",
                 _ => "noncounting-source-shorter",
             };
         }
@@ -733,23 +736,11 @@ fn drive<O, V>(
         let mut classes: Vec<&'static str> = touched.iter().map(|h| spec.class_at(*h)).filter(|s| !s.is_empty()).collect();
         classes.sort();
         classes.dedup();
-        // priority: the most specific explanation first
-        let huge_to = matches!(op, Op::Range("cr", f, t) if t.saturating_sub(*f) > (isize::MAX as usize) / 16);
-        let class = if huge_to && got == "panic" {
-            "huge-to"
-        } else if classes.contains(&"start-after-index") {
-            "start-after-index"
-        } else if classes.contains(&"mapping-past-source-end") {
-            "mapping-past-source-end"
-        } else if classes.contains(&"mapping-shorter-than-source") {
-            "mapping-shorter-than-source"
-        } else if classes.contains(&"noncounting-source-shorter") {
-            "noncounting-source-shorter"
-        } else if classes.contains(&"empty-window") {
-            "empty-window"
-        } else {
-            "plain"
-        };
+        // classes are distribution tags; two of them put the request outside the property's hypotheses
+        // (no V line, model-level comparison only): a window start running ahead of its index by more than
+        // an empty window, and a non-governing FromN source shorter than the reported length
+        let outside = classes.contains(&"start-after-index") || classes.contains(&"noncounting-source-shorter");
+        let class = "plain";
         for cl in &classes {
             let t = format!("class:{cl}");
             if !tags.contains(&t) {
@@ -777,21 +768,10 @@ fn drive<O, V>(
                 }
             }
         };
-        if huge_to && !tags.contains(&"class:huge-to".to_string()) {
-            tags.push("class:huge-to".into());
-        }
-        // a non-governing source shorter than the reported length: outside the property's hypothesis
-        let bad = if class == "noncounting-source-shorter" { None } else { bad };
+        let bad = if outside { None } else { bad };
         if let Some(b) = bad {
-            if class == "huge-to" {
-                out.push_str(&format!(
-                    "V {id} collect-range-huge-to-capacity-overflow-panic {} {} on {}: got [{}] formula says [{}]\n",
-                    c.kind.name(), method_name(op), op_token(op), got, exp.clone().unwrap_or("undefined".into())));
-                continue;
-            }
-            let how = if class == "empty-window" && b == "panic" && c.ovf { "count-underflow-panic" } else { b };
             out.push_str(&format!(
-                "V {id} {fam}-{class}-{how} {} {} on {}: got [{}] formula says [{}]\n",
+                "V {id} {fam}-{class}-{b} {} {} on {}: got [{}] formula says [{}]\n",
                 c.kind.name(),
                 method_name(op),
                 op_token(op),
